@@ -26,7 +26,7 @@ ASSUMPTIONS = [
     'a condition is a scalar value (int / finite float / str), a list of 0-3 admissible non-NaN values (None allowed in the list), None, a NaN object, or a compiled regex; "value" means python equality (cell is v or cell == v, so 1 matches 1.0)',
     'lists of admissible values never contain NaN (membership of a NaN in a list is identity based in python; the statement has NaN as a condition of its own)',
     'a conjunction has at most one condition per column (a dict filter and a keyword on the same column overwrite each other rather than conjoin)',
-    'callables are total, pure, bool-valued predicates whose parameter names are all columns of the table; exactly ONE callable and no keyword filter next to it (exc(f, g) and callable+keyword mixes are outside the statement)',
+    'callables are total, pure predicates whose parameter names are all columns of the table; their verdict is read by truthiness (bools, 0/1, 0/2, None/\'x\', \'\'/\'s\', []/[0], or a mix of these from row to row) as `if f(**row)` does; exactly ONE callable and no keyword filter next to it (exc(f, g) and callable+keyword mixes are outside the statement)',
     'the set of columns is compared, not their order (dictable re-orders columns alphabetically when it rebuilds a table from rows)',
     'rows are compared cell by cell with a type-strict token in which every NaN is one token (1 and 1.0 differ, NaN equals NaN)',
     'find_<col>: when two or more selected rows hold NaN in <col> and nothing else, both "returns NaN" and "raises ValueError" are accepted (whether two NaNs are one value is not decided by the statement)',
@@ -113,6 +113,26 @@ def _predicate(cspec, data):
         true = set(tuple(token(data[c][i]) for c in args) for i in cspec['true_rows'])
         return lambda *vals: tuple(token(v) for v in vals) in true
     return _CATALOGUE[fn][1]
+
+
+# how a predicate presents its verdict: (falsy, truthy). inc / exc judge a callable by truthiness (`if f(**row)`, `if not f(**row)`)
+_RESULTS = {
+    'bool': (lambda: False, lambda: True),
+    'int01': (lambda: 0, lambda: 1),
+    'int02': (lambda: 0, lambda: 2),
+    'none_x': (lambda: None, lambda: 'x'),
+    'str': (lambda: '', lambda: 's'),
+    'list': (lambda: [], lambda: [0]),
+}
+_MIXED = ['int01', 'none_x', 'bool', 'list', 'str', 'int02']
+_RET_KINDS = sorted(_RESULTS) + ['mixed']
+
+
+def _encode(ret, truth, vals):
+    """the object the user's predicate returns for the verdict `truth` on the argument values `vals`"""
+    if ret == 'mixed':        # the kind of result depends (deterministically) on the argument values, so it differs from row to row
+        ret = _MIXED[sum(map(ord, repr(vals))) % len(_MIXED)]
+    return _RESULTS[ret][1 if truth else 0]()
 
 
 def _as_callable(pred, args):
@@ -206,8 +226,11 @@ def _condition(spec_cond, data, env):
     else:
         args = spec_cond['args']
         pred = _predicate(spec_cond, data)
-        f = _as_callable(pred, args)
-        desc = _T('(lambda %s: %s)' % (', '.join(args), spec_cond['fn'] if spec_cond['fn'] != 'table' else 'True exactly on the values of rows %s' % spec_cond['true_rows']))
+        ret = spec_cond.get('ret', 'bool')
+        f = _as_callable(pred if ret == 'bool' else (lambda *vals: _encode(ret, bool(pred(*vals)), vals)), args)
+        desc = _T('(lambda %s: %s%s)' % (', '.join(args), spec_cond['fn'] if spec_cond['fn'] != 'table' else 'true exactly on the values of rows %s' % spec_cond['true_rows'],
+                                        '' if ret == 'bool' else ', verdict returned as %s' % (
+                                            'a result kind that varies by row among %s' % _MIXED if ret == 'mixed' else '%r / %r' % (_RESULTS[ret][0](), _RESULTS[ret][1]()))))
 
         def caller(table, method, extra=None):
             return getattr(table, method)(f, **(extra or {}))
@@ -273,6 +296,9 @@ def run_partition(spec):
     else:
         cls.append('fn=' + spec['cond']['fn'])
         cls.append('nargs=%i' % len(spec['cond']['args']))
+        cls.append('ret=' + spec['cond'].get('ret', 'bool'))
+        if spec['cond'].get('ret', 'bool') != 'bool':
+            cls.append('nonbool_result')
     if n:
         if sel and len(sel) < n:
             cls.append('both_nonempty')
@@ -310,6 +336,8 @@ def run_find(spec):
     ok, res = call_or(what, (ValueError,), caller, d, 'find_' + col)
     _unchanged(_T('find_%s%s' % (col, desc)), d, snap)
     cls = ['ncols=%i' % len(cols), 'cond=' + (spec['cond']['kind'])]
+    if spec['cond']['kind'] == 'callable' and spec['cond'].get('ret', 'bool') != 'bool':
+        cls += ['nonbool_result', 'ret=' + spec['cond']['ret']]
     if len(sel) == 0:
         cls.append('none_selected')
         check(not ok, '%s returned %s although no row satisfies the condition (must raise ValueError)', what, res)
@@ -471,17 +499,18 @@ def _callable_cond(draw, table):
     cols = table['cols']
     n = len(table['data'][cols[0]])
     fn = draw(st.sampled_from(['table', 'table', 'table'] + sorted(_CATALOGUE)))
+    ret = draw(st.sampled_from(['bool', 'int01', 'bool', 'bool', 'none_x', 'bool', 'mixed', 'bool', 'int02', 'bool', 'str', 'bool', 'list', 'bool', 'bool']))
     if fn == 'table':
         nargs = draw(st.integers(1, min(3, len(cols))))
         args = list(draw(st.permutations(cols))[:nargs])
         true_rows = [i for i, b in enumerate(draw(st.lists(st.sampled_from([True, False]), min_size=n, max_size=n))) if b]
-        return dict(kind='callable', fn='table', args=args, true_rows=sorted(true_rows))
+        return dict(kind='callable', fn='table', args=args, true_rows=sorted(true_rows), ret=ret)
     nargs = _CATALOGUE[fn][0]
     if nargs > len(cols):
         fn = draw(st.sampled_from(['is_none', 'is_nan', 'is_str', 'num_pos']))
         nargs = 1
     args = list(draw(st.permutations(cols))[:nargs])
-    return dict(kind='callable', fn=fn, args=args)
+    return dict(kind='callable', fn=fn, args=args, ret=ret)
 
 
 def _sizes(tier):
@@ -563,14 +592,16 @@ SUBS = [
                       'cond=val': 0.1, 'nconds=2': 0.1, 'form=none': 0.03, 'interleaved': 0.05, 'n=0': 0.01, 'nan_cond_on_nan_column': 0.02}),
     Sub('predicate', _predicate_case, run_partition, quick=2000, thorough=15000,
         rule='same tables; ONE callable over 1-3 named columns: a catalogue of total predicates (is None, is NaN, is str, > 0, str(a) < str(b), a == b, '
-             'constant True / False) or an arbitrary truth table on the rows. oracle: the same python predicate applied to the plain records. '
+             'constant True / False) or an arbitrary truth table on the rows; in about 40% of the cases the verdict is returned as a truthy / falsy non-bool (0/1, 0/2, None/x, empty/non-empty str or list, or a kind that varies from row to row). oracle: the truth value of the same python predicate applied to the plain records. '
              'non-trivial = at least one row and (both parts non-empty or all / nothing selected)',
-        floor=0.5, class_floors={'both_nonempty': 0.2, 'all': 0.03, 'nothing': 0.05, 'fn=table': 0.2, 'nargs=2': 0.1}),
+        floor=0.5, class_floors={'both_nonempty': 0.2, 'all': 0.03, 'nothing': 0.05, 'fn=table': 0.2, 'nargs=2': 0.1, 'nonbool_result': 0.25,
+                                 'ret=int01': 0.02, 'ret=int02': 0.02, 'ret=none_x': 0.02, 'ret=str': 0.02, 'ret=list': 0.02, 'ret=mixed': 0.02}),
     Sub('find', _find_case, run_find, quick=2500, thorough=15000,
-        rule='same tables and conditions (filters or one callable) plus a column: find_<col>(condition) must return the one value held by the selected rows and '
+        rule='same tables and conditions (filters or one callable, whose verdict is a non-bool truthy / falsy value in about 40% of the callable cases) plus a column: find_<col>(condition) must return the one value held by the selected rows and '
              'raise ValueError when no row or two different values are selected; one_or_none(condition[, exc=][, find=]) must give None / the row / ValueError '
              'for 0 / 1 / several selected rows. non-trivial = the selection is not a single row',
-        floor=0.3, class_floors={'none_selected': 0.1, 'multiple_values': 0.1, 'unique_from_many': 0.05, 'single_row': 0.05, 'one_or_none_exc': 0.1}),
+        floor=0.3, class_floors={'none_selected': 0.1, 'multiple_values': 0.1, 'unique_from_many': 0.05, 'single_row': 0.05, 'one_or_none_exc': 0.1,
+                                 'nonbool_result': 0.05}),
     EnumSub('small_enum', enum_small, run_partition, thorough_only=True, chunks=64,
             rule='every 1-column table of 0-%i rows over the pool %s x %i single-column conditions x {keyword, dict}; same oracle as filters'
                  % (ENUM_MAX_ROWS, ENUM_POOL, len(ENUM_CONDS))),
